@@ -32,6 +32,8 @@ PURE_EXTERNAL = {
     "Transformer.transform", "Transformer_InPlace.transform", "Canonize().transform",
     # C17 decides what reaches OrderedDict
     "OrderedDict.__init__", "OrderedDict.__contains__", "OrderedDict.__getitem__", "OrderedDict.__class__",
+    # construction of a repo class that defines no __init__ (dataclasses): stores references, mutates nothing
+    "object.__init__",
 }
 
 
@@ -139,6 +141,12 @@ class Effects:
                 return out
             if isinstance(f, ast.Attribute) and f.attr in PART_OF:
                 return self.roots(q, f.value, derived, params)
+            if cs is not None and cs.external == "object.__init__":
+                # a repo class without __init__ (e.g. a @dataclass): the new object holds its arguments
+                out = set()
+                for a in list(expr.args) + [k.value for k in expr.keywords]:
+                    out |= {r if r.endswith("*") else r + "*" for r in self.roots(q, a, derived, params)}
+                return out
             if d in SHALLOW or (d and d.split(".")[-1] in SHALLOW):
                 out = set()
                 for a in expr.args:
